@@ -272,6 +272,82 @@ theorem C43_cross_type_collision_unrepaired :
 /-- a zero split interval (request that did not pass the split middleware) divides by zero -/
 theorem C43_zero_split_panics : rangeKey { rq with splitMs := 0 } = none := by decide
 
+/-! ### from the matcher text to the matcher sets
+
+  The key theorems above end at "equal matcher text".  What the injectivity of the key in the
+  matcher SETS needs of the rendering is `Rendered`: the text reads back (`unrender`) as the sets
+  of the request — true of `(*labels.Matcher).String()` because `strconv.Quote` escapes `"` and
+  `\` (the quoted value is a prefix code), checked for every generated request against the real
+  rendering (driver answer `render-mismatch`), false of a rendering that writes values raw. -/
+
+theorem rendered_inj {text : Str} {sa sb : List (List Matcher)} (ha : Rendered text sa) (hb : Rendered text sb) :
+    sa = sb := by
+  unfold Rendered at ha hb
+  rw [ha] at hb
+  exact Option.some.inj hb
+
+/-- the labels key separates the matcher sets (same hypotheses as `C43_labels_partial`, plus the
+    rendering hypothesis for both requests) -/
+theorem C43_labels_sets (a b : LabelsReq) (sa sb : List (List Matcher)) (k : Str)
+    (ha : ':' ∉ a.tenant ∧ ':' ∉ a.label) (hb : ':' ∉ b.tenant ∧ ':' ∉ b.label)
+    (hra : Rendered a.matchers sa) (hrb : Rendered b.matchers sb)
+    (hka : labelsKey a = some k) (hkb : labelsKey b = some k) :
+    a.tenant = b.tenant ∧ a.label = b.label ∧ sa = sb := by
+  obtain ⟨e1, e2, e3, _, _⟩ := C43_labels_partial a b k ha hb hka hkb
+  exact ⟨e1, e2, rendered_inj hra (e3 ▸ hrb)⟩
+
+/-- … and so does the series key -/
+theorem C43_series_sets (a b : SeriesReq) (sa sb : List (List Matcher)) (k : Str) (ha : ':' ∉ a.tenant) (hb : ':' ∉ b.tenant)
+    (hra : ∀ x ∈ a.replicas, LabelOK x) (hrb : ∀ x ∈ b.replicas, LabelOK x)
+    (hsa : Rendered a.matchers sa) (hsb : Rendered b.matchers sb)
+    (hka : seriesKey a = some k) (hkb : seriesKey b = some k) :
+    a.tenant = b.tenant ∧ sa = sb ∧ a.partialResp = b.partialResp ∧ sortS a.replicas = sortS b.replicas := by
+  obtain ⟨⟨e1, e2, e3, e4⟩, _, _⟩ := C43_series_partial a b k ha hb hra hrb hka hkb
+  exact ⟨e1, rendered_inj hsa (e2 ▸ hsb), e3, e4⟩
+
+/-- the spelled-out twins: `{foo="a", b="c"}` and `{foo="a\" b=\"c"}`; two selectors `{foo="a"}`,
+    `{b="c"}` and the one selector `{foo="a\"] [b=\"c"}` -/
+private def twinA : List (List Matcher) := [[⟨s "foo", 0, s "a"⟩, ⟨s "b", 0, s "c"⟩]]
+private def twinB : List (List Matcher) := [[⟨s "foo", 0, s "a\" b=\"c"⟩]]
+private def twinC : List (List Matcher) := [[⟨s "foo", 0, s "a"⟩], [⟨s "b", 0, s "c"⟩]]
+private def twinD : List (List Matcher) := [[⟨s "foo", 0, s "a\"] [b=\"c"⟩]]
+
+/-- the rendering hypothesis is necessary: when values are written raw between the quotes
+    (`renderWith id`), different matcher sets have the same text, so no decoder exists … -/
+theorem C43_raw_rendering_false :
+    ¬ ∃ u : Str → Option (List (List Matcher)), ∀ sets, u (renderWith id sets) = some sets := by
+  intro ⟨u, h⟩
+  have h1 := h twinA
+  have h2 := h twinB
+  have e : renderWith id twinA = renderWith id twinB := by decide
+  rw [e, h2] at h1
+  exact absurd (Option.some.inj h1) (by decide)
+
+example : renderWith id twinC = renderWith id twinD := by decide
+
+/-- … and with it equal keys for requests that select different series -/
+theorem C43_raw_rendering_collision :
+    labelsKey ⟨s "t", s "job", renderWith id twinA, 0, 3600000, false⟩ =
+      labelsKey ⟨s "t", s "job", renderWith id twinB, 0, 3600000, false⟩ ∧ twinA ≠ twinB := by
+  decide
+
+/-- the hypothesis is satisfiable, for ALL matcher sets, by a renderer that escapes `"` and `\\`
+    (`quoteMin`; names verbatim identifiers, operators `=`, `!=`, `=~`, `!~`): the quoted value is
+    a prefix code, so the decoder reads back exactly what was rendered -/
+theorem C43_escaped_rendering_reads_back (sets : List (List Matcher)) (hp : ∀ ms ∈ sets, ∀ m ∈ ms, m.Plain) :
+    Rendered (renderWith quoteMin sets) sets :=
+  rendered_quoteMin sets hp
+
+/-- with escaping the twins are told apart and read back -/
+example : Rendered (renderWith quoteMin twinA) twinA ∧ Rendered (renderWith quoteMin twinB) twinB ∧
+    Rendered (renderWith quoteMin twinC) twinC ∧ Rendered (renderWith quoteMin twinD) twinD := by decide
+example : renderWith quoteMin twinB = s "[[foo=\"a\\\" b=\\\"c\"]]" := by decide
+-- what strconv.Quote does beyond quoteMin: control characters, quoted (UTF-8) names, every operator
+example : Rendered (s "[[\"utf8.name\"!~\"a\\nb\\x01\\u00a0\\\\\"] [__name__=~\"a|b\" x!=\"\"]]")
+    [[⟨s "utf8.name", 3, ['a', '\n', 'b', Char.ofNat 1, Char.ofNat 160, '\\']⟩], [⟨s "__name__", 2, s "a|b"⟩, ⟨s "x", 1, []⟩]] := by
+  decide
+example : Rendered (s "[]") [] := by decide
+
 /-! ### regenerated obligations: field order and formats in the source are the modelled ones -/
 
 theorem C43_fact_range_writes :
